@@ -338,7 +338,27 @@ fn tx_update(ctx: &mut Ctx, ch: &Choices) -> R {
     let mut cfg = small_cfg(ch);
     cfg.offset = 0;
     cfg.padding = *ch.pick("c13.upd.pad", &[Some(200u32), None, Some(20), Some(9000), Some(2000)]);
-    let pcm = draw_pcm(ch, cfg.channels, cfg.bps, 16 + ch.draw("c13.upd.n", 40) as usize);
+    // the audio is sometimes larger than update_file's internal 8 KiB read buffer, so that the
+    // rebuild path has to go back to the source while copying the frames
+    let frames = match ch.draw("c13.upd.audio", 4) {
+        0 | 1 => 16 + ch.draw("c13.upd.n", 40) as usize,
+        2 => 6000 + ch.draw("c13.upd.n2", 2000) as usize,
+        _ => 14000,
+    };
+    if frames > 1000 {
+        cfg.channels = 1;
+        cfg.bps = 16;
+        cfg.block = 1024;
+        probe("c13_update_audio_larger_than_read_buffer");
+    }
+    let mut pcm = draw_pcm(ch, cfg.channels, cfg.bps, frames);
+    if frames > 1000 {
+        // incompressible, so that the file really exceeds the buffer
+        let mut r = crate::rng::Xoshiro::new(ch.raw("c13.upd.noise"));
+        for x in pcm.inter.iter_mut() {
+            *x = (r.next() % 65536) as i32 - 32768;
+        }
+    }
     let extra = genmeta::draw_blocks(ch, 3, false);
     let Some(orig) = make_file(ch, &cfg, &pcm, extra) else {
         ctx.skip_foreign("fixture file could not be encoded");
